@@ -193,7 +193,7 @@ pub trait SemanticString<const CAPACITY: usize>:
     /// Finds the last occurrence of a byte string in the given string. If the byte string was
     /// found the start position of the byte string is returned, otherwise [`None`].
     fn rfind(&self, bytes: &[u8]) -> Option<usize> {
-        self.as_string().find(bytes)
+        self.as_string().rfind(bytes)
     }
 
     /// Returns true when the string is full, otherwise false
